@@ -33,7 +33,10 @@ impl Visitor for Rewriter {
         if let Expression::Include(def) = expr {
             let path = PathBuf::from(def.path.fragment.as_ref());
             if path.is_relative() {
-                def.path.fragment = self.base.join(path).to_string_lossy().to_string().into();
+                def.path.fragment = crate::path::normalize(self.base.join(path))
+                    .to_string_lossy()
+                    .to_string()
+                    .into();
             }
         }
         if let Expression::Import(def) = expr {
@@ -48,7 +51,10 @@ impl Visitor for Rewriter {
                 return;
             }
             if path.is_relative() {
-                def.path.fragment = self.base.join(path).to_string_lossy().to_string().into();
+                def.path.fragment = crate::path::normalize(self.base.join(path))
+                    .to_string_lossy()
+                    .to_string()
+                    .into();
             }
         }
     }
